@@ -1,12 +1,14 @@
 import IronCalc.Book.BuildProofs
 import IronCalc.Eval.MemoProofs
 import IronCalc.Eval.SpillProofs
+import IronCalc.Eval.Phase1Proofs
 /-
   C07 — Evaluation is deterministic and independent of editing order.
   Property theorems only.
   Models: Book/Build.lean (cell-level part of Model::set_user_input: the formula table keyed by
   R1C1 text, shared strings, style pool) and Eval/Memo.lean (the memoising evaluator).
-  The restart loop of phase 1 (`n*n+1` bound) is NOT modelled: see notes/C07.md.
+  The scheduler of phase 1 (order vector, reorder, restart counter) is modelled in Eval/Phase1.lean;
+  whether its bound `n*n+1` always suffices on acyclic relations stays open (`restart_bound_full`).
 -/
 namespace IronCalc.Build
 
@@ -138,3 +140,112 @@ theorem C07_full_false : ¬ C07_full := by
   decide
 
 end IronCalc.Spill
+
+/-! ## The scheduler of `Model::evaluate`, phase 1 (model: Eval/Phase1.lean) -/
+namespace IronCalc.Phase1
+
+variable {A : Type}
+
+/-- the order vector is only ever permuted -/
+theorem phase1_perm (d : A → A → Bool) (order : List A) :
+    (phase1 (fun _ => d) order).1.Perm order :=
+  (run_spec d _ 0 order).1
+
+/-- (a) SOUNDNESS OF A COMPLETED PHASE 1.  If the loop ends without reaching the restart bound,
+    then in the final order no anchor reads what an anchor placed after it writes: every anchor
+    was evaluated after everything it reads had been written.  For every set of anchors, every
+    dependency relation (cyclic ones included) and every initial order. -/
+theorem phase1_sound (d : A → A → Bool) (order : List A)
+    (h : (phase1 (fun _ => d) order).2.2 = false) :
+    Sound d (phase1 (fun _ => d) order).1 :=
+  (run_spec d _ 0 order).2 h
+
+/-- (b, partial) TERMINATION ON ACYCLIC RELATIONS.  If the relation has a rank function with
+    values below `B`, the loop stops by itself after fewer than `B ^ n` restarts (every reorder
+    makes the sequence of ranks lexicographically smaller).  This is NOT the bound the code
+    uses (`n*n+1`): see `restart_bound_full`. -/
+theorem phase1_terminates_acyclic_partial (d : A → A → Bool) (r : A → Nat) (B : Nat)
+    (hr : ∀ a b, d a b = true → r b < r a) (order : List A) (hB : ∀ a, a ∈ order → r a < B) :
+    (run (fun _ => d) (B ^ order.length) 0 order).2.2 = false :=
+  run_terminates d r B hr _ 0 order hB (enc_lt_pow r B order hB)
+
+/-- the full statement about the code's bound: on acyclic relations `n*n+1` restarts suffice.
+    OPEN: neither proved nor refuted here.  `restart_bound_small` checks it exhaustively for 4
+    anchors (the worst case for 1..5 anchors is 0, 1, 2, 4, 6 restarts — ⌊n²/4⌋); the harness searches
+    for counter-examples on the real engine (suite c07-sched, tag `phase1:bound-reached` on
+    statically acyclic sets). -/
+def restart_bound_full : Prop :=
+  ∀ (n : Nat) (d : Fin n → Fin n → Bool) (order : List (Fin n)),
+    (∃ r : Fin n → Nat, ∀ a b, d a b = true → r b < r a) →
+    (phase1 (fun _ => d) order).2.2 = false
+
+/-- all orders of a list -/
+def insertAll (x : Nat) : List Nat → List (List Nat)
+  | [] => [[x]]
+  | y :: ys => (x :: y :: ys) :: (insertAll x ys).map (y :: ·)
+
+def perms : List Nat → List (List Nat)
+  | [] => [[]]
+  | x :: xs => (perms xs).flatMap (insertAll x)
+
+/-- the acyclic relation on 0..n-1 coded by `mask`: `a` reads `b` only if `b < a`
+    (every acyclic relation is of this form up to renaming, and all orders are tried) -/
+def dagOf (mask : Nat) (a b : Nat) : Bool :=
+  decide (b < a) && (mask / 2 ^ (a * (a - 1) / 2 + b)) % 2 == 1
+
+/-- bounded evidence for `restart_bound_full`: every acyclic relation on 4 anchors and every
+    initial order ends within 4 = ⌊n²/4⌋ ≤ n*n+1 restarts (5 anchors: 6 restarts, checked by the
+    same enumeration outside the build, see notes/C07.md) -/
+theorem restart_bound_small :
+    ∀ mask, mask < 2 ^ 6 → ∀ o, o ∈ perms [0, 1, 2, 3] →
+      (phase1 (fun _ => dagOf mask) o).2.2 = false ∧ (phase1 (fun _ => dagOf mask) o).2.1 ≤ 4 := by
+  decide +kernel
+
+/-- (c) ORDER INDEPENDENCE.  Two sound orders of the same anchors compute the same values,
+    whatever values the sheet held before (acyclic relation, each anchor's value a function of
+    what it reads). -/
+theorem sound_orders_same_values {V : Type} [DecidableEq A] (d : A → A → Bool)
+    (F : A → (A → V) → V) (hF : Respects d F) (r : A → Nat)
+    (hr : ∀ a b, d a b = true → r b < r a) (o1 o2 : List A) (hperm : o1.Perm o2)
+    (hnd : o1.Nodup) (hs1 : Sound d o1) (hs2 : Sound d o2)
+    (hclosed : ∀ a b, a ∈ o1 → d a b = true → b ∈ o1) (σ1 σ2 : A → V) :
+    ∀ a, a ∈ o1 → evalPass F o1 σ1 a = evalPass F o2 σ2 a := by
+  have hirr : ∀ a, d a a = false := by
+    intro a
+    cases h : d a a with
+    | false => rfl
+    | true => exact absurd (hr a a h) (Nat.lt_irrefl _)
+  have f1 := evalPass_fixpoint d F hF hirr o1 σ1 hnd hs1
+  have f2 := evalPass_fixpoint d F hF hirr o2 σ2 (hperm.nodup_iff.mp hnd) hs2
+  intro a ha
+  exact fixpoint_unique d F hF r hr (· ∈ o1) hclosed _ _ f1
+    (fun b hb => f2 b (hperm.mem_iff.mp hb)) (r a + 1) a (Nat.lt_succ_self _) ha
+
+/-- C07 at the scheduler level: whatever order the anchors were collected in, if phase 1 ends
+    without reaching the bound, the values it computes are the same -/
+theorem phase1_values_order_independent {V : Type} [DecidableEq A] (d : A → A → Bool)
+    (F : A → (A → V) → V) (hF : Respects d F) (r : A → Nat)
+    (hr : ∀ a b, d a b = true → r b < r a) (o o' : List A) (hperm : o.Perm o') (hnd : o.Nodup)
+    (hclosed : ∀ a b, a ∈ o → d a b = true → b ∈ o)
+    (h : (phase1 (fun _ => d) o).2.2 = false) (h' : (phase1 (fun _ => d) o').2.2 = false)
+    (σ σ' : A → V) :
+    ∀ a, a ∈ o → evalPass F (phase1 (fun _ => d) o).1 σ a = evalPass F (phase1 (fun _ => d) o').1 σ' a := by
+  have p1 := phase1_perm d o
+  have p2 := phase1_perm d o'
+  intro a ha
+  apply sound_orders_same_values d F hF r hr _ _ (p1.trans (hperm.trans p2.symm))
+    (p1.nodup_iff.mpr hnd) (phase1_sound d o h) (phase1_sound d o' h')
+  · intro x y hx hxy
+    exact p1.mem_iff.mpr (hclosed x y (p1.mem_iff.mp hx) hxy)
+  · exact p1.mem_iff.mpr ha
+
+/-! non-vacuity -/
+
+/-- a chain 1 reads 0, 2 reads 1, … entered in the order 4 2 0 1 3 needs 6 restarts -/
+example : phase1 (fun _ => dagOf 549) [4, 2, 0, 1, 3] = ([0, 1, 2, 3, 4], 6, false) := by
+  decide
+
+/-- two anchors that read each other: the bound n*n+1 = 5 is reached -/
+example : (phase1 (fun _ (a b : Nat) => a != b) [0, 1]).2 = (5, true) := by decide
+
+end IronCalc.Phase1
